@@ -27,6 +27,8 @@ def run(F, R, ctx):
         world_lock_rule(F, R)
         parked_published_rule(F, R)
         registry_rule(F, R)
+        stoppers_serialised_rule(F, R)
+    queue_guard_rule(F, R)
 
 
 def _run(F, R, ctx):
@@ -305,3 +307,168 @@ def registry_rule(F, R, rid="C16.r"):
                        fn.loc(b["line"]), sample=True)
     R.inst(rid, "the thread registry grows by registration only (%d push sites, %d shrinking sites)" % (grows, n), grows >= 2,
            "no registration of a thread in Synchronizer.threads was found", "", sample={"push_sites": grows, "shrinking_sites": n})
+
+
+GUARD_TY = re.compile(r"(Arc)?MutexGuard<[^>]*\bHeap>")
+
+
+def _heap_guard_held_at(fn, site):
+    """True iff, at call block `site` of fn, a guard of the heap mutex is live on every path: some block that acquires one
+    (SteelThread::enter_safepoint* returning the guard, or lock / lock_arc on a Mutex<Heap>) dominates the site, and no drop /
+    move-away of the guard local (or of a local it was moved into) lies between the acquisition and the site."""
+    dom = fn.dominators()
+    if site not in dom:
+        return False
+    for c, b in fn.calls():
+        if c == site or c not in dom[site]:
+            continue
+        targs = b.get("targs") or []
+        acq = (re.search(r"\{impl SteelThread\}::enter_safepoint(_once)?$", b["callee"]) and targs and GUARD_TY.search(targs[0])) or \
+              (re.search(r"Mutex<R,T>\}::(lock|lock_arc)$|Mutex<T>\}::lock$", b["callee"]) and any(re.search(r"\bHeap$", t) for t in targs))
+        if not acq:
+            continue
+        alias = {b["dest"]}
+        for _ in range(4):
+            for _, _, e in fn.events("mv"):
+                if e[2] in alias and e[1] not in alias and "." not in e[1] and "*" not in e[1]:
+                    alias.add(e[1])
+        after = fn.reachable_from(fn.succ(c))
+        released = False
+        for i in after:
+            blk = fn.blocks[i]
+            gone = (blk["k"] == "drop" and blk.get("place") in alias) or \
+                   (blk["k"] == "call" and re.search(r"mem::drop$", blk["callee"]) and any(a in alias for a in blk["args"]))
+            if gone and (i == site or site in fn.reachable_from(fn.succ(i))):
+                released = True
+                break
+        if not released:
+            return True
+    return False
+
+
+def stoppers_serialised_rule(F, R):
+    R.rule("C16.s", "two stop-the-world coordinators never run at once: every path that reaches Synchronizer::stop_threads does so "
+                    "with the heap mutex held — in the function itself (a guard acquired before the call and still alive at it), "
+                    "by type (the function works on `&mut Heap`, which exists only behind the guard), or in every caller, "
+                    "transitively (a function that stops the world without the lock passes the obligation on to its callers). "
+                    "Otherwise two threads that each define / assign a global, or one that does and one that collects, pause "
+                    "each other and each waits in call_per_ctx / enumerate_stacks for the other to publish itself: neither does")
+    stop_rx = re.compile(r"\{impl Synchronizer\}::stop_threads$")
+    if not F.find(stop_rx.pattern):
+        raise CheckError("anchor lost: Synchronizer::stop_threads")
+
+    def by_type(fn):
+        return any(re.search(r"&mut Heap\b", t) or GUARD_TY.search(t) for t in (fn.d.get("in") or []))
+
+    callers = {}
+    for n, fn in F.fns.items():
+        if not n.startswith("steel::"):
+            continue
+        for i, b in fn.calls():
+            callers.setdefault(b["callee"], []).append((fn, i))
+    # closures are "called" where they are built: the obligation goes to the function that builds them
+    for n, fn in F.fns.items():
+        if fn.d["kind"] == "Closure" and fn.d.get("parent") in F.fns:
+            par = F.fns[fn.d["parent"]]
+            for i, _, e in par.events("closure"):
+                if e[1] == n:
+                    callers.setdefault(n, []).append((par, i))
+    # requiring[f] = list of (site block, callee name) where f reaches stop_threads without holding the lock
+    requiring = {}
+    work = [n for n in F.fns if stop_rx.search(n)]
+    seen = set(work)
+    direct = 0
+    while work:
+        g = work.pop()
+        for fn, site in callers.get(g, []):
+            if stop_rx.search(g):
+                direct += 1
+            if by_type(fn) or _heap_guard_held_at(fn, site):
+                R.inst("C16.s", "%s holds the heap lock where it reaches %s" % (fn.short(), lib.short_name(g)), True, sample=True)
+                continue
+            requiring.setdefault(fn.name, []).append((site, g))
+            if fn.name not in seen:
+                seen.add(fn.name)
+                work.append(fn.name)
+    R.floor("C16.s", "call sites of Synchronizer::stop_threads", direct, 2)
+    # the obligation ends undischarged at a requiring function nobody calls (an entry point: primitive, VM dispatch, embedding
+    # API). Reported at the function a repair would touch: the caller of the routine that stops the world directly (or that
+    # routine itself when it is an entry point)
+    up = {}
+    for n, sites in requiring.items():
+        for _, g in sites:
+            if g in requiring:
+                up.setdefault(g, set()).add(n)
+    undis = {n: n for n in requiring if not callers.get(n)}       # function -> a root above it
+    work = list(undis)
+    while work:
+        n = work.pop()
+        for _, g in requiring[n]:
+            if g in requiring and g not in undis:
+                undis[g] = undis[n]
+                work.append(g)
+    level0 = {n for n, sites in requiring.items() if any(stop_rx.search(g) for _, g in sites)}
+    for n in sorted(undis):
+        via = [(site, g) for site, g in requiring[n] if g in level0 and g != n]
+        if n in level0 and not callers.get(n):
+            via = [(site, g) for site, g in requiring[n] if stop_rx.search(g)]
+        elif n in level0 or not via:
+            continue
+        fn = F.fns[n]
+        site, g = via[0]
+        R.inst("C16.s", "%s stops the world with the heap lock held" % fn.short(), False,
+               "%s reaches Synchronizer::stop_threads (%s) without holding the heap mutex, and so does every caller up to %s: "
+               "another thread doing the same (a global definition / assignment) or collecting pauses this one and waits for it "
+               "to publish itself, while this one has paused the other and waits for it — both wait forever (two threads running "
+               "`(set! a n)` / `(set! b n)` loops never finish). A guard bound with `let _ = …` is dropped at once" % (
+                   fn.short(), "directly" if stop_rx.search(g) else "through " + lib.short_name(g), lib.short_name(undis[n])),
+               fn.loc(fn.blocks[site].get("line")), sample=True)
+
+
+def queue_guard_rule(F, R):
+    R.rule("C16.g", "steel-rc: no entry guard of the merge-queue maps (dashmap Ref / RefMut: the shard's lock) is alive across a call "
+                    "that can destroy a payload. A payload's destructor drops the references it holds; dropping one that another "
+                    "thread owns queues it for that thread — which locks a shard of the same map; when both keys share a shard the "
+                    "thread waits for a lock it holds itself")
+    destroy = re.compile(r"^steel_rc::.*drop_contents_and_maybe_box|ptr::drop_in_place$")
+    if not any(destroy.search(n) for n in F.fns):
+        raise CheckError("anchor lost: steel_rc's payload destructor (drop_contents_and_maybe_box*)")
+    GUARD = re.compile(r"^(dashmap::\S*)?Ref(Mut)?<")
+    n = 0
+    for name, fn in sorted(F.fns.items()):
+        if not name.startswith("steel_rc::"):
+            continue
+        drops = [(i, b) for i, b in enumerate(fn.blocks) if b["k"] == "drop" and not b["c"] and GUARD.search(b.get("ty") or "")]
+        for k, (d, db) in enumerate(drops):
+            n += 1
+            local = db["place"]
+            srcs = lib.alias_sources(fn, local)
+            origin = [c for c, cb in fn.calls() if cb["dest"] in srcs or cb["dest"].split(".")[0] in srcs]
+            region = set(fn.normal_blocks())
+            if origin:
+                region = set()
+                for c in origin:
+                    region |= fn.reachable_from(fn.succ(c))
+            live = {b for b in region if b != d and d in fn.reachable_from(fn.succ(b))}
+            bad = None
+            for b in sorted(live):
+                blk = fn.blocks[b]
+                if blk["k"] != "call":
+                    continue
+                if destroy.search(blk["callee"]):
+                    bad = (blk, [blk["callee"]])
+                    break
+                if blk["callee"].startswith("steel_rc::"):
+                    path = F.reaches(blk["callee"], destroy, stop=lambda x: not x.startswith("steel_rc::"), maxdepth=5)
+                    if path:
+                        bad = (blk, path)
+                        break
+            R.inst("C16.g", "%s / entry guard #%d is released before anything that can destroy a payload" % (fn.short(), k), bad is None,
+                   bad and ("%s calls %s (line %s) while the map entry guard `%s` (%s) is alive; that call can destroy a payload (%s), "
+                            "whose destructor may queue an object for another thread: QUEUE.map.get_mut on a shard this thread has "
+                            "locked — the thread deadlocks on itself (harness: an owner's run_explicit_merge destroying a value that "
+                            "holds references owned by 300 other live threads never returns)" % (
+                                fn.short(), lib.short_name(bad[0]["callee"]), bad[0].get("line"), local, db.get("ty"),
+                                " -> ".join(lib.short_name(x) for x in bad[1]))),
+                   fn.loc(bad[0].get("line")) if bad else "", sample=True)
+    R.floor("C16.g", "entry guards of the merge-queue maps", n, 3)
